@@ -216,7 +216,7 @@ async def _run_impl(script):
         await gw
         for _ in range(24):
             await asyncio.sleep(0)
-        q = [] if conn is None else [_frame_txt(D, it) for it in list(conn._read_queue._queue)]
+        q = [] if conn is None else [_frame_txt(D, it) for it in list(conn._read_queue._queue) if it is not None]  # None = end-of-stream marker
         closed = 0 if conn is None else int(bool(conn._is_closed))
         res_all.append({
             "res": f"{res} {_ms(tdone)}",
